@@ -3,10 +3,9 @@ From PK Require Import Base.Outcome Base.Finite Base.Machine Base.Reach Gen.Type
 Import ListNotations.
 Local Open Scope N_scope.
 Notation I := syn_ps2.
-Notation s0 := (Ps2Decoder_mk 0 0).
 Definition enc_op (op : bit_op) : N := match op with Bit false => 0 | Bit true => 1 | Clear => 2 end.
 (* breadth-first from the initial state; a shortest operation sequence whose last operation panics *)
 Definition find_panic : option (list bit_op) :=
-  kfind_panic (ps2_machine I) (ps_eqb I) Ps2Decoder_hash all_ops 4000 300000 s0.
+  ps_at_init I None (fun s0 => kfind_panic (ps2_machine I) (ps_eqb I) Ps2Decoder_hash all_ops 4000 300000 s0).
 Eval vm_compute in ("cex"%string,
   match find_panic with Some p => [(map enc_op p, [9], [0])] | None => [] end).
